@@ -433,7 +433,11 @@ def _two_case(cfg, values):
                         def _before_save_(o): pass
                         def _save_(o, db=db, sub=sub, k=k):
                             sql = 'INSERT flushed%d' % k
-                            db._exec_sql(sql, None, False, True)
+                            try: db._exec_sql(sql, None, False, True)
+                            except BaseException as e:
+                                if type(e).__name__ not in ('Concretization', 'Unsupported'):          # the flush fails: what is durable anywhere at this moment
+                                    st.setdefault('durable_when_a_flush_failed', []).extend((x['name'], [y[0] for y in x['led'].durable]) for x in d if x['led'].durable)
+                                raise
                             sub['done'].append(sql)
                     cache.objects_to_save.append(Obj()); cache.modified = True
             if cfg['explicit_commit']:
@@ -478,6 +482,8 @@ def _two_spec(cfg, i, path):
         if not failed and durable != sub['done']: why.append('%s: success reported, durable %r of %r' % (sub['name'], durable, sub['done']))
         if not any_commit and durable: why.append('%s: durable without a commit' % sub['name'])
     if st['alive']: why.append('session caches outlive the session: %d' % len(st['alive']))
+    # commit() flushes EVERY database before it commits the first one: a flush that fails finds nothing of this session durable anywhere (the body made no commit of its own)
+    if not cfg['explicit_commit'] and st.get('durable_when_a_flush_failed'): why.append('a flush failed after a database had been committed: %r' % (st['durable_when_a_flush_failed'],))
     if st.get('limbo_after_failed_commit'): why.append('commit() failed before anything was committed, but writes stay pending: %r' % (st['limbo_after_failed_commit'],))
     return not why
 
